@@ -11,6 +11,7 @@ Theorems (all over Model/Routing.lean applied to the tables regenerated from /re
   route_listoffsets_leader  a split ListOffsets part goes to its partition's leader
   route_listoffsets_designated … and never to a broker the layout does not designate (unknown leader → control)
   filter_eq_last_refresh    topic-filtered metadata from the cache = restriction of the last answer
+  cached_filter_exact       … with the cache's sortedness established by update (normalize_sorted), no side condition
   update_follows            after update(m) the layout and the connection groups are those of m
   conns_invariant           … along every history of updates
 -/
@@ -176,6 +177,28 @@ theorem filter_eq_last_refresh (res : MResponse) (names : List String) (hs : Sor
   apply List.map_congr_left
   intro n _
   exact Lemmas.Routing.findTopic_correct res.topics hs n
+
+
+/-- the topics of the normalised answer are exactly the answer's topics, each with its partitions sorted -/
+theorem normalize_topics_mem (m : MResponse) (t : MTopic) :
+    t ∈ (normalize m).topics ↔
+      ∃ t0 ∈ m.topics, t = { t0 with partitions := sortBy (fun a b => decide (a.index < b.index)) t0.partitions } := by
+  simp only [normalize, List.mem_map, Lemmas.Routing.mem_sortBy]
+  constructor
+  · rintro ⟨t0, h0, rfl⟩; exact ⟨t0, h0, rfl⟩
+  · rintro ⟨t0, h0, rfl⟩; exact ⟨t0, h0, rfl⟩
+
+/-- **cached_filter_exact** (`filter_eq_last_refresh` without a side condition): after a refresh that delivered
+`m` (topic names pairwise distinct, as brokers answer), a topic-filtered metadata request is answered from the
+cache with, for every requested name in request order, the entry of the (normalised) answer `m` with that name,
+or the UnknownTopicOrPartition placeholder — the sortedness the bisection needs is established by `update` itself. -/
+theorem cached_filter_exact (s : PoolState) (m : MResponse) (names : List String)
+    (hnd : (m.topics.map (·.name)).Nodup) :
+    (update s (some m) false).metadata = some (normalize m) ∧
+    filterMetadata (some names) (normalize m) =
+      { normalize m with topics := names.map fun n =>
+          ((normalize m).topics.find? (fun t => t.name == n)).getD (unknownTopic n) } :=
+  ⟨rfl, filter_eq_last_refresh (normalize m) names (Lemmas.Routing.normalize_sorted m hnd)⟩
 
 /-- an unfiltered request gets the whole cached answer -/
 theorem filter_all (res : MResponse) : filterMetadata none res = res := rfl
